@@ -2,29 +2,35 @@
 pub mod rt;
 pub mod support;
 use std::panic::AssertUnwindSafe;
-#[path = "gen/c26_s0.rs"] mod c26_s0;
-#[path = "gen/c26_s1.rs"] mod c26_s1;
-#[path = "gen/c26_s2.rs"] mod c26_s2;
-#[path = "gen/c26_s3.rs"] mod c26_s3;
-#[path = "gen/c26_s4.rs"] mod c26_s4;
+#[path = "gen/calc_t.rs"] mod calc_t;
+#[path = "gen/words_t.rs"] mod words_t;
+#[path = "gen/matchblk_t.rs"] mod matchblk_t;
+#[path = "gen/recover_t.rs"] mod recover_t;
+#[path = "gen/pressure_t.rs"] mod pressure_t;
+#[path = "gen/calc_a.rs"] mod calc_a;
+#[path = "gen/words_a.rs"] mod words_a;
 
 fn run_seq(m: &str, p: &str, input: &str) -> String {
     match (m, p) {
-        ("c26_s0", "S") => rt::guarded(AssertUnwindSafe(|| rt::show(c26_s0::SParser::new().parse(input)))),
-        ("c26_s1", "S") => rt::guarded(AssertUnwindSafe(|| rt::show(c26_s1::SParser::new().parse(input)))),
-        ("c26_s2", "S") => rt::guarded(AssertUnwindSafe(|| rt::show(c26_s2::SParser::new().parse(input)))),
-        ("c26_s3", "S") => rt::guarded(AssertUnwindSafe(|| rt::show(c26_s3::SParser::new().parse(input)))),
-        ("c26_s4", "S") => rt::guarded(AssertUnwindSafe(|| rt::show(c26_s4::SParser::new().parse(input)))),
+        ("calc_t", "P") => rt::guarded(AssertUnwindSafe(|| rt::show(calc_t::PParser::new().parse(input)))),
+        ("words_t", "P") => rt::guarded(AssertUnwindSafe(|| rt::show(words_t::PParser::new().parse(input)))),
+        ("matchblk_t", "P") => rt::guarded(AssertUnwindSafe(|| rt::show(matchblk_t::PParser::new().parse(input)))),
+        ("recover_t", "P") => rt::guarded(AssertUnwindSafe(|| rt::show(recover_t::PParser::new().parse(input)))),
+        ("pressure_t", "P") => rt::guarded(AssertUnwindSafe(|| rt::show(pressure_t::PParser::new().parse(input)))),
+        ("calc_a", "P") => rt::guarded(AssertUnwindSafe(|| rt::show(calc_a::PParser::new().parse(input)))),
+        ("words_a", "P") => rt::guarded(AssertUnwindSafe(|| rt::show(words_a::PParser::new().parse(input)))),
         _ => "NOPARSER".to_string(),
     }
 }
 fn run_mt(m: &str, p: &str, threads: usize, rounds: usize, inputs: &[String]) -> String {
     match (m, p) {
-        ("c26_s0", "S") => { let p = c26_s0::SParser::new(); rt::shared(&p, inputs, threads, rounds, |p, s| rt::guarded(AssertUnwindSafe(|| rt::show(p.parse(s))))) }
-        ("c26_s1", "S") => { let p = c26_s1::SParser::new(); rt::shared(&p, inputs, threads, rounds, |p, s| rt::guarded(AssertUnwindSafe(|| rt::show(p.parse(s))))) }
-        ("c26_s2", "S") => { let p = c26_s2::SParser::new(); rt::shared(&p, inputs, threads, rounds, |p, s| rt::guarded(AssertUnwindSafe(|| rt::show(p.parse(s))))) }
-        ("c26_s3", "S") => { let p = c26_s3::SParser::new(); rt::shared(&p, inputs, threads, rounds, |p, s| rt::guarded(AssertUnwindSafe(|| rt::show(p.parse(s))))) }
-        ("c26_s4", "S") => { let p = c26_s4::SParser::new(); rt::shared(&p, inputs, threads, rounds, |p, s| rt::guarded(AssertUnwindSafe(|| rt::show(p.parse(s))))) }
+        ("calc_t", "P") => { let p = calc_t::PParser::new(); rt::shared(&p, inputs, threads, rounds, |p, s| rt::guarded(AssertUnwindSafe(|| rt::show(p.parse(s))))) }
+        ("words_t", "P") => { let p = words_t::PParser::new(); rt::shared(&p, inputs, threads, rounds, |p, s| rt::guarded(AssertUnwindSafe(|| rt::show(p.parse(s))))) }
+        ("matchblk_t", "P") => { let p = matchblk_t::PParser::new(); rt::shared(&p, inputs, threads, rounds, |p, s| rt::guarded(AssertUnwindSafe(|| rt::show(p.parse(s))))) }
+        ("recover_t", "P") => { let p = recover_t::PParser::new(); rt::shared(&p, inputs, threads, rounds, |p, s| rt::guarded(AssertUnwindSafe(|| rt::show(p.parse(s))))) }
+        ("pressure_t", "P") => { let p = pressure_t::PParser::new(); rt::shared(&p, inputs, threads, rounds, |p, s| rt::guarded(AssertUnwindSafe(|| rt::show(p.parse(s))))) }
+        ("calc_a", "P") => { let p = calc_a::PParser::new(); rt::shared(&p, inputs, threads, rounds, |p, s| rt::guarded(AssertUnwindSafe(|| rt::show(p.parse(s))))) }
+        ("words_a", "P") => { let p = words_a::PParser::new(); rt::shared(&p, inputs, threads, rounds, |p, s| rt::guarded(AssertUnwindSafe(|| rt::show(p.parse(s))))) }
         _ => "NOPARSER".to_string(),
     }
 }
